@@ -162,7 +162,11 @@ pub(crate) fn on_remove_worker(
         .on_worker_lost(worker_id, &running_tasks, reason);
 
     for task_id in running_tasks {
-        let task = core.get_task_mut(task_id);
+        // The task may already be gone: failing an earlier task of this loop can make
+        // the client cancel the remaining tasks of the same job (e.g. max-fails).
+        let Some(task) = core.find_task_mut(task_id) else {
+            continue;
+        };
         if CrashLimit::NeverRestart == task.configuration.crash_limit {
             log::debug!("Task {task_id} with never restart flag crashed");
             let error_info = TaskFailInfo {
